@@ -39,6 +39,7 @@ static void hook_record(int idx, uint8_t inval){
 }
 static int inv(void);
 static void shim_prezero(void);
+static void shim_reset_wr(void);
 static void exhaust(int digest, int L, int nr, const unsigned char *reps, int do_end);
 static void witness(const unsigned char *str, int n, int do_end);
 /* ---- exhaustive chunk-schedule exploration inside C ---- */
@@ -48,7 +49,7 @@ static int CUTPOS = -1, CUTALL = 0;     /* long inputs: one cut after byte CUTPO
 static int iscut(unsigned mask, int k){ if (CUTALL) return 1; if (CUTPOS >= 0) return k == CUTPOS; return k < 31 && (mask & (1u << k)); }
 static int POISON = 0;                  /* what the state struct holds before start() is called (op 'P'): start() must not rely on zeroed memory */
 static void run_one(const unsigned char *s, int n, unsigned mask, int do_end){
-  shim_release(); memset(ST, POISON, sizeof(PSTATE_T)); if (POISON) shim_prezero(); install_hooks();
+  shim_release(); memset(ST, POISON, sizeof(PSTATE_T)); if (POISON) shim_prezero(); shim_reset_wr(); install_hooks();
   CUR_PP = NULL; int r = PSTART(ST); install_hooks(); out8('S'); out8(r);
   int a = 0, term = (r != 0);
   while (!term && a < n){
@@ -243,6 +244,12 @@ int main(int argc, char **argv){
 '''
 
 
+def declared_capacity(out):
+    """bytes a string output may hold, from its declaration alone (str[N]: N - 1 plus the terminator; unterminated str[N]: N) - not nmfu's own
+    effective_string_size(), so that a change to that method shows up as a difference"""
+    return out.str_size - 1 if out.str_null else out.str_size
+
+
 def gen_shim(acc, sentinels=None):
     name = acc.name
     d = acc.dctx
@@ -301,16 +308,22 @@ def gen_shim(acc, sentinels=None):
             o.append("  out64((long long)ST->c.%s);" % nm)
     o.append("}")
     # invariants checked after every feed call: counter <= capacity, terminator present, sentinels intact
+    # a terminated string that has held something must be an empty C string again when its length returns to 0 (delete, `s = "";`)
+    strs = [nm for nm, out in spec.items() if out.type == T.STR]
+    o.append("static unsigned char WR[%d];" % max(len(strs), 1))
+    o.append("static void shim_reset_wr(void){ memset(WR, 0, sizeof WR); }")
     o.append("static int inv(void){")
     k = 1
     for nm, out in spec.items():
         if out.type == T.STR:
-            o.append("  if (ST->%s_counter > %d) return %d;" % (nm, out.effective_string_size(), k))
+            wi = strs.index(nm)
+            o.append("  if (ST->%s_counter > %d) return %d;" % (nm, declared_capacity(out), k))
+            o.append("  if (ST->%s_counter > 0) WR[%d] = 1;" % (nm, wi))
             if out.str_null:
                 # (a string that was never written has no terminator - start() does not store one - so length 0 is only checked for strings
-                # that start() itself writes, i.e. those with a default value: after a delete they must be empty C strings again)
-                o.append("  if (ST->c.%s && ST->%s_counter <= %d && ((unsigned char*)ST->c.%s)[ST->%s_counter] != 0 && (ST->%s_counter > 0 || %d)) return %d;" % (
-                    nm, nm, out.effective_string_size(), nm, nm, nm, 1 if out.default_value is not None else 0, k + 1))
+                # that start() itself writes, i.e. those with a default value, and for strings that have been seen non-empty in this run)
+                o.append("  if (ST->c.%s && ST->%s_counter <= %d && ((unsigned char*)ST->c.%s)[ST->%s_counter] != 0 && (ST->%s_counter > 0 || %d || WR[%d])) return %d;" % (
+                    nm, nm, declared_capacity(out), nm, nm, nm, 1 if out.default_value is not None else 0, wi, k + 1))
             if dyn:
                 o.append("  if (!ST->c.%s && ST->%s_counter > 0) return %d;" % (nm, nm, k + 2))
         elif out.type == T.RAW:
